@@ -1,27 +1,1413 @@
-//! C16 — stub, not built yet.
+//! C16 Transposition preserves text.
+//!
+//! Generator: two or three texts built from a shared pool of fragments (different fillers, optionally a
+//! different fragment order per text); a transposition over them (simple: DirectionalSelector of
+//! TextSelectors; complex: DirectionalSelector of AnnotationSelectors whose annotations select the
+//! fragments through a TextSelector / DirectionalSelector / MultiSelector); a source (annotation or
+//! text selection set) placed inside one fragment, spanning adjacent fragments exactly or partially,
+//! partly or wholly outside; TransposeConfig variations.
+//!
+//! Oracle: interval arithmetic over `Vec<char>`; shares no code with stam.
 
 use crate::engine::*;
+use crate::observe::observe;
 use proptest::prelude::*;
+use serde::{Deserialize, Serialize};
+use stam::*;
+use std::collections::BTreeMap;
 
 pub struct C16;
 
+pub const VOCAB: &str = "https://w3id.org/stam/extensions/stam-transpose/";
+
+#[derive(Clone, Copy, Debug, Serialize, Deserialize, PartialEq, Eq)]
+pub enum SelKind {
+    Text,
+    Directional,
+    Multi,
+}
+
+#[derive(Clone, Copy, Debug, Serialize, Deserialize, PartialEq, Eq)]
+pub enum Via {
+    /// DirectionalSelector of TextSelectors (one fragment per side)
+    Simple,
+    /// DirectionalSelector of AnnotationSelectors; every side annotation selects the fragments of its side
+    Complex,
+}
+
+#[derive(Clone, Debug, Serialize, Deserialize)]
+pub struct Side {
+    /// index of the text this side lies in
+    pub res: u8,
+    /// selector kind of the side annotation (complex transpositions with more than one fragment)
+    pub kind: SelKind,
+    /// fragments (begin, end) in selector order
+    pub frags: Vec<(u16, u16)>,
+}
+
+#[derive(Clone, Copy, Debug, Serialize, Deserialize, PartialEq, Eq)]
+pub enum Entry {
+    /// `ResultItem<Annotation>::transpose`, the annotation has a public id
+    AnnotationId,
+    /// `ResultItem<Annotation>::transpose`, the annotation has no public id
+    AnnotationNoId,
+    /// `ResultTextSelectionSet::transpose` on ad-hoc selections, no source annotation exists
+    TsetNew,
+    /// `ResultTextSelectionSet::transpose` on the selections of an existing annotation, `source_side_id` + `existing_source_side`
+    TsetExisting,
+    /// `ResultTextSelectionSet::transpose` on ad-hoc selections, `source_side_id` names the annotation to create
+    TsetNamed,
+}
+
+#[derive(Clone, Debug, Serialize, Deserialize)]
+pub struct Cfg {
+    /// pass transposition_id / resegmentation_id / target_side_ids
+    pub ids: bool,
+    pub allow_simple: bool,
+    pub no_transposition: bool,
+    pub no_resegmentation: bool,
+    /// 0 = Auto, 1 = ByIndex(the side the source lies in), 2 = ByIndex(another side)
+    pub side: u8,
+}
+
+#[derive(Clone, Debug, Serialize, Deserialize)]
+pub struct Case {
+    pub texts: Vec<String>,
+    pub via: Via,
+    pub sides: Vec<Side>,
+    /// text the source lies in
+    pub src_res: u8,
+    pub src_kind: SelKind,
+    pub src: Vec<(u16, u16)>,
+    pub entry: Entry,
+    pub with_data: bool,
+    /// representation noise: bit 0 = an unrelated annotation between the side annotations (their handles are then
+    /// not consecutive), bit 1 = every fragment is annotated beforehand in textual order (the text selections of a
+    /// re-ordered side are then not consecutive handles)
+    #[serde(default)]
+    pub noise: u8,
+    pub cfg: Cfg,
+}
+
+// ------------------------------------------------------------------------------------------------
+// oracle (plain interval arithmetic)
+
+type R = (usize, usize);
+
+#[derive(Clone, Copy, Debug, PartialEq, Eq, PartialOrd, Ord)]
+enum Class {
+    Inside,
+    Span,
+    SpanReordered,
+    Zero,
+    PartialBegin,
+    PartialEnd,
+    Gap,
+    Outside,
+}
+
+impl Class {
+    fn name(&self) -> &'static str {
+        match self {
+            Class::Inside => "inside",
+            Class::Span => "span",
+            Class::SpanReordered => "span-reordered",
+            Class::Zero => "zero",
+            Class::PartialBegin => "partial-begin",
+            Class::PartialEnd => "partial-end",
+            Class::Gap => "gap",
+            Class::Outside => "outside",
+        }
+    }
+    fn uncovered(&self) -> bool {
+        matches!(self, Class::PartialBegin | Class::PartialEnd | Class::Gap | Class::Outside)
+    }
+}
+
+#[derive(Clone, Debug)]
+struct Piece {
+    /// sequence number of the fragment in its side
+    frag: usize,
+    /// offsets relative to the fragment
+    rb: usize,
+    re: usize,
+}
+
+/// Walk one source range over the fragments of the source side (sequence order); returns the class and,
+/// when every codepoint is inside a fragment, the pieces in textual order.
+fn walk(frags: &[R], b: usize, e: usize) -> (Class, Vec<Piece>) {
+    if b == e {
+        return (Class::Zero, vec![]);
+    }
+    let containing = |p: usize| frags.iter().position(|f| f.0 <= p && p < f.1);
+    let mut pieces = vec![];
+    let mut cur = b;
+    loop {
+        match containing(cur) {
+            None => {
+                let later_overlap = frags.iter().any(|f| f.0 > cur && f.0 < e);
+                let class = if pieces.is_empty() {
+                    if later_overlap {
+                        Class::PartialBegin
+                    } else {
+                        Class::Outside
+                    }
+                } else if later_overlap {
+                    Class::Gap
+                } else {
+                    Class::PartialEnd
+                };
+                return (class, vec![]);
+            }
+            Some(i) => {
+                let pe = e.min(frags[i].1);
+                pieces.push(Piece { frag: i, rb: cur - frags[i].0, re: pe - frags[i].0 });
+                cur = pe;
+                if cur == e {
+                    break;
+                }
+            }
+        }
+    }
+    let class = if pieces.len() == 1 {
+        Class::Inside
+    } else if pieces.windows(2).all(|w| w[1].frag == w[0].frag + 1) {
+        Class::Span
+    } else {
+        Class::SpanReordered
+    };
+    (class, pieces)
+}
+
+/// merge consecutive pieces that touch (same resource, end == next begin)
+fn coalesce(v: &[(usize, usize, usize)]) -> Vec<(usize, usize, usize)> {
+    let mut out: Vec<(usize, usize, usize)> = vec![];
+    for &(r, b, e) in v {
+        if let Some(last) = out.last_mut() {
+            if last.0 == r && last.2 == b && last.1 < last.2 && b < e {
+                last.2 = e;
+                continue;
+            }
+        }
+        out.push((r, b, e));
+    }
+    out
+}
+
+fn slice(chars: &[char], b: usize, e: usize) -> String {
+    chars[b..e].iter().collect()
+}
+
+// ------------------------------------------------------------------------------------------------
+// observation helpers
+
+#[derive(Clone, Debug)]
+struct Added {
+    handle: AnnotationHandle,
+    id: Option<String>,
+    /// (text index, begin, end) in the order reported by textselections()
+    tsels: Vec<(usize, usize, usize)>,
+    texts: Vec<String>,
+    joined: String,
+    is_transposition: bool,
+    is_resegmentation: bool,
+    in_targets: Vec<AnnotationHandle>,
+}
+
+fn res_index(r: &ResultItem<TextResource>) -> usize {
+    r.id()
+        .and_then(|s| s.strip_prefix('r'))
+        .and_then(|s| s.parse().ok())
+        .unwrap_or(usize::MAX)
+}
+
+fn describe(store: &AnnotationStore, handle: AnnotationHandle) -> Option<Added> {
+    let a = store.annotation(handle)?;
+    let tsels: Vec<(usize, usize, usize)> = a
+        .textselections()
+        .map(|t| (res_index(&t.resource()), t.begin(), t.end()))
+        .collect();
+    let texts: Vec<String> = a.text().map(|s| s.to_string()).collect();
+    let mut is_transposition = false;
+    let mut is_resegmentation = false;
+    for d in a.data() {
+        if d.set().id() == Some(VOCAB) {
+            match d.key().id() {
+                Some("Transposition") => is_transposition = true,
+                Some("Resegmentation") => is_resegmentation = true,
+                _ => {}
+            }
+        }
+    }
+    Some(Added {
+        handle,
+        id: a.id().map(|s| s.to_string()),
+        joined: a.text_join(""),
+        tsels,
+        texts,
+        is_transposition,
+        is_resegmentation,
+        in_targets: a.annotations_in_targets(AnnotationDepth::One).map(|x| x.handle()).collect(),
+    })
+}
+
+fn selector_for(res: usize, kind: SelKind, ranges: &[R]) -> SelectorBuilder<'static> {
+    let one = |r: &R| SelectorBuilder::textselector(format!("r{}", res), Offset::simple(r.0, r.1));
+    if ranges.len() == 1 && kind == SelKind::Text {
+        return one(&ranges[0]);
+    }
+    match kind {
+        SelKind::Multi => SelectorBuilder::multiselector(ranges.iter().map(one)),
+        _ => SelectorBuilder::directionalselector(ranges.iter().map(one)),
+    }
+}
+
+/// order in which the documentation says the selections of a selector are reported
+fn reported_order(kind: SelKind, ranges: &[R]) -> Vec<R> {
+    let mut v = ranges.to_vec();
+    if kind == SelKind::Multi {
+        v.sort();
+    }
+    v
+}
+
+// ------------------------------------------------------------------------------------------------
+// generator
+
+const FRAG_ALPHABET: [char; 16] = [
+    'a', 'b', 'c', 'd', 'e', 'f', 'g', 'h', 'k', 'm', 'é', 'ß', '日', '😀', 'x', 'z',
+];
+const MAXPOOL: usize = 7;
+const FILL_ALPHABET: [char; 6] = ['.', ' ', '_', '\n', '–', '#'];
+
+#[derive(Clone, Debug)]
+struct SrcSpec {
+    mode: u8,
+    first: u16,
+    nfrag: u8,
+    bi: u16,
+    ei: u16,
+    lo: u8,
+    ro: u8,
+}
+
+fn frag_strategy() -> impl Strategy<Value = String> {
+    proptest::collection::vec(0usize..FRAG_ALPHABET.len(), 1..=6)
+        .prop_map(|v| v.into_iter().map(|i| FRAG_ALPHABET[i]).collect())
+}
+
+fn filler_strategy(empty_weight: u32) -> impl Strategy<Value = String> {
+    prop_oneof![
+        empty_weight => Just(String::new()),
+        (100 - empty_weight) => proptest::collection::vec(0usize..FILL_ALPHABET.len(), 1..=3)
+            .prop_map(|v| v.into_iter().map(|i| FILL_ALPHABET[i]).collect::<String>()),
+    ]
+}
+
+fn srcspec_strategy() -> impl Strategy<Value = SrcSpec> {
+    (
+        prop_oneof![
+            32 => Just(0u8),
+            25 => Just(1u8),
+            7 => Just(2u8),
+            8 => Just(3u8),
+            8 => Just(4u8),
+            4 => Just(5u8),
+            16 => Just(6u8),
+        ],
+        any::<u16>(),
+        prop_oneof![35 => Just(1u8), 40 => Just(2u8), 25 => Just(3u8)],
+        any::<u16>(),
+        any::<u16>(),
+        0u8..2,
+        0u8..2,
+    )
+        .prop_map(|(mode, first, nfrag, bi, ei, lo, ro)| SrcSpec { mode, first, nfrag, bi, ei, lo, ro })
+}
+
+#[derive(Clone, Debug)]
+struct TextRecipe {
+    order_keys: Vec<u16>,
+    lead: String,
+    between: Vec<String>,
+    trail: String,
+}
+
+fn textrecipe_strategy() -> impl Strategy<Value = TextRecipe> {
+    (
+        proptest::collection::vec(any::<u16>(), MAXPOOL),
+        filler_strategy(40),
+        proptest::collection::vec(filler_strategy(70), MAXPOOL),
+        filler_strategy(40),
+    )
+        .prop_map(|(order_keys, lead, between, trail)| TextRecipe { order_keys, lead, between, trail })
+}
+
+/// returns (text, position of every pool fragment in this text)
+fn build_text(pool: &[String], recipe: &TextRecipe, reorder: bool) -> (String, Vec<R>) {
+    let n = pool.len();
+    let mut order: Vec<usize> = (0..n).collect();
+    if reorder {
+        order.sort_by_key(|&i| (recipe.order_keys[i], i));
+    }
+    let mut text: Vec<char> = recipe.lead.chars().collect();
+    let mut pos = vec![(0, 0); n];
+    for (k, &i) in order.iter().enumerate() {
+        let b = text.len();
+        text.extend(pool[i].chars());
+        pos[i] = (b, text.len());
+        if k + 1 < n {
+            text.extend(recipe.between[k].chars());
+        }
+    }
+    text.extend(recipe.trail.chars());
+    (text.into_iter().collect(), pos)
+}
+
+fn build_source(spec: &SrcSpec, textual: &[R], textlen: usize) -> R {
+    let n = textual.len();
+    let first = pick(spec.first, n);
+    let last = (first + spec.nfrag as usize - 1).min(n - 1);
+    let flen = textual[first].1 - textual[first].0;
+    let llen = textual[last].1 - textual[last].0;
+    let inner_b = textual[first].0 + pick(spec.bi, flen);
+    let mut inner_e = textual[last].0 + 1 + pick(spec.ei, llen);
+    if inner_e <= inner_b {
+        inner_e = inner_b + 1;
+    }
+    match spec.mode {
+        // begins and ends somewhere inside the first/last fragment
+        0 => (inner_b, inner_e),
+        // exactly the fragments
+        1 => (textual[first].0, textual[last].1),
+        // sticks out to the left
+        2 => (textual[first].0.saturating_sub(1 + spec.lo as usize), inner_e),
+        // sticks out to the right
+        3 => (inner_b, (textual[last].1 + 1 + spec.ro as usize).min(textlen)),
+        // anywhere
+        4 => {
+            let x = pick(spec.bi, textlen + 1);
+            let y = pick(spec.ei, textlen + 1);
+            (x.min(y), x.max(y))
+        }
+        // zero width
+        5 => {
+            let p = textual[first].0 + pick(spec.bi, flen + 1);
+            (p, p)
+        }
+        // begins at the fragment start, ends inside the last / begins inside, ends at the fragment end
+        _ => {
+            if spec.lo == 0 {
+                (textual[first].0, inner_e)
+            } else {
+                (inner_b, textual[last].1)
+            }
+        }
+    }
+}
+
+fn case_strategy(tier: Tier) -> BoxedStrategy<Case> {
+    let maxpool = tier.pick(5usize, MAXPOOL);
+    let pool = prop_oneof![
+        10 => proptest::collection::vec(frag_strategy(), 1..=1),
+        20 => proptest::collection::vec(frag_strategy(), 2..=2),
+        70 => proptest::collection::vec(frag_strategy(), 3..=maxpool),
+    ];
+    let shape = (
+        prop_oneof![60 => Just(2usize), 40 => Just(3usize)], // number of texts
+        prop_oneof![25 => Just(Via::Simple), 75 => Just(Via::Complex)],
+        prop_oneof![45 => Just(true), 55 => Just(false)], // reorder
+        any::<bool>(),                                    // third text is a side (else foreign)
+        any::<bool>(),                                    // reverse side order
+        proptest::collection::vec(prop_oneof![60 => Just(SelKind::Directional), 40 => Just(SelKind::Multi)], 3),
+        any::<u16>(), // fragment used by a simple transposition
+        any::<bool>(), // keep the first text in pool order when reordering
+        0u8..4,        // representation noise
+    );
+    let source = (
+        any::<u16>(), // source text
+        prop_oneof![
+            70 => proptest::collection::vec(srcspec_strategy(), 1..=1),
+            20 => proptest::collection::vec(srcspec_strategy(), 2..=2),
+            10 => proptest::collection::vec(srcspec_strategy(), 3..=tier.pick(3usize, 4usize)),
+        ],
+        prop_oneof![50 => Just(SelKind::Directional), 50 => Just(SelKind::Multi)],
+        prop_oneof![
+            40 => Just(Entry::AnnotationId),
+            15 => Just(Entry::AnnotationNoId),
+            20 => Just(Entry::TsetNew),
+            15 => Just(Entry::TsetExisting),
+            10 => Just(Entry::TsetNamed),
+        ],
+        any::<bool>(),
+    );
+    let cfg = (
+        any::<bool>(),
+        prop_oneof![75 => Just(false), 25 => Just(true)],
+        prop_oneof![85 => Just(false), 15 => Just(true)],
+        prop_oneof![80 => Just(false), 20 => Just(true)],
+        prop_oneof![75 => Just(0u8), 20 => Just(1u8), 5 => Just(2u8)],
+    )
+        .prop_map(|(ids, allow_simple, no_transposition, no_resegmentation, side)| Cfg {
+            ids,
+            allow_simple,
+            no_transposition,
+            no_resegmentation,
+            side,
+        });
+    (pool, proptest::collection::vec(textrecipe_strategy(), 3), shape, source, cfg)
+        .prop_map(|(pool, recipes, shape, source, cfg)| {
+            let (ntexts, via, reorder, third_is_side, reverse, kinds, simple_frag, keep_first, noise) = shape;
+            let (src_text, specs, src_kind, entry, with_data) = source;
+            let n = pool.len();
+            // Multi side annotations report their selections in textual order, so a transposition with such a side
+            // is only valid when the fragments come in the same order in every text: reordering needs Directional sides
+            let reorder = reorder && n > 1 && via == Via::Complex;
+            let mut texts = vec![];
+            let mut positions = vec![];
+            for t in 0..ntexts {
+                let (text, pos) = build_text(&pool, &recipes[t], reorder && !(t == 0 && keep_first));
+                texts.push(text);
+                positions.push(pos);
+            }
+            let nsides = if ntexts == 3 && third_is_side { 3 } else { 2 };
+            let mut side_texts: Vec<usize> = (0..nsides).collect();
+            if reverse {
+                side_texts.reverse();
+            }
+            let k = pick(simple_frag, n);
+            let sides: Vec<Side> = side_texts
+                .iter()
+                .map(|&t| {
+                    let frags: Vec<R> = match via {
+                        Via::Simple => vec![positions[t][k]],
+                        Via::Complex => positions[t].clone(),
+                    };
+                    let kind = if frags.len() == 1 {
+                        SelKind::Text
+                    } else if reorder {
+                        SelKind::Directional
+                    } else {
+                        kinds[t]
+                    };
+                    Side {
+                        res: t as u8,
+                        kind,
+                        frags: frags.iter().map(|f| (f.0 as u16, f.1 as u16)).collect(),
+                    }
+                })
+                .collect();
+            let src_res = pick(src_text, ntexts);
+            let mut textual = positions[src_res].clone();
+            textual.sort();
+            let textlen = texts[src_res].chars().count();
+            let mut src: Vec<(u16, u16)> = vec![];
+            for spec in &specs {
+                let r = build_source(spec, &textual, textlen);
+                let r = (r.0 as u16, r.1 as u16);
+                if !src.contains(&r) {
+                    src.push(r);
+                }
+            }
+            let src_kind = if src.len() == 1 { SelKind::Text } else { src_kind };
+            if src_kind == SelKind::Multi {
+                src.sort();
+            }
+            Case { texts, via, sides, src_res: src_res as u8, src_kind, src, entry, with_data, noise, cfg }
+        })
+        .boxed()
+}
+
+// ------------------------------------------------------------------------------------------------
+
 impl Property for C16 {
-    type Case = u8;
+    type Case = Case;
     fn id(&self) -> &'static str {
         "C16"
     }
     fn rule(&self) -> String {
-        "not built yet".into()
+        "case = 2-3 texts built from a shared pool of 1-5 (thorough: 1-7) fragments (1-6 codepoints, 1-4 byte characters) with independent fillers (empty in ~70% of the gaps, so fragments are often adjacent) and, for 45% of the complex transpositions, an independent fragment order per text; a transposition over 2 or 3 of the texts: simple (DirectionalSelector of TextSelectors, one fragment per side) or complex (DirectionalSelector of AnnotationSelectors on side annotations that select the fragments through a TextSelector, DirectionalSelector or MultiSelector) carrying the Transposition key of the stam-transpose vocabulary; a source of 1-3 (thorough: 1-4) ranges in any of the texts (inside a fragment, exactly the fragments, spanning 2-3 adjacent fragments, sticking out left/right, anywhere, zero-width) given as annotation (with/without id; Text/Directional/Multi selector) or as ResultTextSelectionSet; TransposeConfig: ids given or generated, allow_simple, no_transposition, no_resegmentation, source_side Auto/ByIndex, existing_source_side+source_side_id. Oracle: interval arithmetic over Vec<char> decides coverage (every codepoint of every source range inside a fragment of the side lying in the source's text, walking over touching fragments) and the expected target ranges (fragment-relative offsets re-applied to the corresponding fragment of every other side). Non-trivial = a source range spans a fragment boundary or the transposition has >= 3 fragments per side; distinct = distinct case JSON.".into()
     }
-    fn cases(&self, _tier: Tier) -> u64 {
-        0
+    fn assumptions(&self) -> Vec<String> {
+        vec![
+            "sides of one transposition lie in different texts (a transposition within one text makes the source side ambiguous; not generated)".into(),
+            "Ok/Err is don't-care (counted) where the documentation is silent: zero-width source ranges, source ranges spanning touching fragments whose selector order differs from their textual order, and source_side=ByIndex naming a side the source does not lie in; every facet about the result still applies when the call succeeds".into(),
+            "a source range with a codepoint outside every fragment of the source side counts as not covered (pinned tests transpose_over_*_invalid; error text 'Not all source fragments were found')".into(),
+            "target offsets are compared after merging consecutive touching pieces (the documentation does not fix how a result is segmented)".into(),
+            "TransposeConfig::debug is not generated (it only adds stderr output and an internal cross-check)".into(),
+            "ids are generated by the library with its own randomness (nanoid); they do not influence any compared value".into(),
+        ]
     }
-    fn strategy(&self, _tier: Tier) -> BoxedStrategy<u8> {
-        any::<u8>().boxed()
+    fn cases(&self, tier: Tier) -> u64 {
+        tier.pick(160_000, 4_000_000)
     }
-    fn run(&self, _case: &u8) -> Outcome {
-        let mut o = Outcome::new();
-        o.skip("not built");
-        o
+    fn strategy(&self, tier: Tier) -> BoxedStrategy<Case> {
+        case_strategy(tier)
+    }
+    fn exhaustive_note(&self, _tier: Tier) -> Option<String> {
+        Some("every single source range 0<=b<=e<=len in either text of 5 fixed transpositions (simple; complex in textual order with DirectionalSelector sides; complex with the second text re-ordered; complex with the first side listed out of textual order; complex with MultiSelector sides) x entry {annotation with id, ad-hoc selection set} x allow_simple {false,true}".into())
+    }
+    fn enumerate(&self, _tier: Tier) -> Vec<Case> {
+        // r0: f0=[1,3) "ab", f1=[3,5) "cd" (touching), f2=[6,8) "ef"
+        let r0 = ".abcd_ef.";
+        // r1: same fragments in another order: f2=[0,2), f0=[2,4) (touching), f1=[5,7)
+        let r1 = "efab#cd";
+        // r2: same order as r0 with other fillers: f0=[1,3), f1=[4,6), f2=[6,8) (touching)
+        let r2 = "xab.cdef";
+        let side = |res: u8, kind: SelKind, frags: &[(u16, u16)]| Side { res, kind, frags: frags.to_vec() };
+        let vias: Vec<(Vec<String>, Via, Vec<Side>)> = vec![
+            (
+                vec![r0.into(), r1.into()],
+                Via::Simple,
+                vec![side(0, SelKind::Text, &[(1, 3)]), side(1, SelKind::Text, &[(2, 4)])],
+            ),
+            (
+                vec![r0.into(), r2.into()],
+                Via::Complex,
+                vec![
+                    side(0, SelKind::Directional, &[(1, 3), (3, 5), (6, 8)]),
+                    side(1, SelKind::Directional, &[(1, 3), (4, 6), (6, 8)]),
+                ],
+            ),
+            (
+                vec![r0.into(), r1.into()],
+                Via::Complex,
+                vec![
+                    side(0, SelKind::Directional, &[(1, 3), (3, 5), (6, 8)]),
+                    side(1, SelKind::Directional, &[(2, 4), (5, 7), (0, 2)]),
+                ],
+            ),
+            (
+                vec![r0.into(), r1.into()],
+                Via::Complex,
+                vec![
+                    side(0, SelKind::Directional, &[(6, 8), (1, 3), (3, 5)]),
+                    side(1, SelKind::Directional, &[(0, 2), (2, 4), (5, 7)]),
+                ],
+            ),
+            (
+                vec![r0.into(), r2.into()],
+                Via::Complex,
+                vec![
+                    side(0, SelKind::Multi, &[(1, 3), (3, 5), (6, 8)]),
+                    side(1, SelKind::Multi, &[(1, 3), (4, 6), (6, 8)]),
+                ],
+            ),
+        ];
+        let mut v = vec![];
+        for (texts, via, sides) in &vias {
+            for src_res in 0..2u8 {
+                let len = texts[src_res as usize].chars().count() as u16;
+                for b in 0..=len {
+                    for e in b..=len {
+                        for entry in [Entry::AnnotationId, Entry::TsetNew] {
+                            for allow_simple in [false, true] {
+                                v.push(Case {
+                                    texts: texts.clone(),
+                                    via: *via,
+                                    sides: sides.clone(),
+                                    src_res,
+                                    src_kind: SelKind::Text,
+                                    src: vec![(b, e)],
+                                    entry,
+                                    with_data: true,
+                                    noise: 0,
+                                    cfg: Cfg { ids: true, allow_simple, no_transposition: false, no_resegmentation: false, side: 0 },
+                                });
+                            }
+                        }
+                    }
+                }
+            }
+        }
+        v
+    }
+
+    fn health(&self, labels: &BTreeMap<String, u64>, evals: u64) -> Vec<String> {
+        let mut v = vec![];
+        if evals < 2000 {
+            return v;
+        }
+        let frac = |l: &str| *labels.get(l).unwrap_or(&0) as f64 / evals as f64;
+        for (label, min) in [
+            ("src:boundary-spanning", 0.15),
+            ("frags>=3", 0.30),
+            ("reordered", 0.10),
+            ("via:complex", 0.40),
+            ("expect:err", 0.15),
+            ("expect:ok", 0.35),
+            ("sides=3", 0.08),
+            ("result:ok", 0.25),
+            ("result:err", 0.15),
+        ] {
+            if frac(label) < min {
+                v.push(format!("label {} only {:.1}% of cases (< {:.0}%)", label, frac(label) * 100.0, min * 100.0));
+            }
+        }
+        v
+    }
+
+    fn run(&self, case: &Case) -> Outcome {
+        let mut out = Outcome::new();
+        // ---------------------------------------------------------------- validate the case
+        let chars: Vec<Vec<char>> = case.texts.iter().map(|t| t.chars().collect()).collect();
+        let ntexts = chars.len();
+        if ntexts < 2 || case.sides.len() < 2 || case.src.is_empty() || case.src_res as usize >= ntexts {
+            out.skip("invalid case: shape");
+            return out;
+        }
+        // fragments of every side in the order the side reports them
+        let mut side_frags: Vec<Vec<R>> = vec![];
+        for (j, side) in case.sides.iter().enumerate() {
+            let t = side.res as usize;
+            if t >= ntexts || case.sides.iter().take(j).any(|s| s.res == side.res) {
+                out.skip("invalid case: side resources");
+                return out;
+            }
+            let fr: Vec<R> = side.frags.iter().map(|f| (f.0 as usize, f.1 as usize)).collect();
+            if fr.is_empty()
+                || fr.iter().any(|f| f.0 >= f.1 || f.1 > chars[t].len())
+                || (case.via == Via::Simple && fr.len() != 1)
+                || (fr.len() > 1 && side.kind == SelKind::Text)
+            {
+                out.skip("invalid case: fragments");
+                return out;
+            }
+            for (x, a) in fr.iter().enumerate() {
+                for b in fr.iter().skip(x + 1) {
+                    if a.0 < b.1 && b.0 < a.1 {
+                        out.skip("invalid case: overlapping fragments");
+                        return out;
+                    }
+                }
+            }
+            side_frags.push(reported_order(side.kind, &fr));
+        }
+        let nfrags = side_frags[0].len();
+        for (j, fr) in side_frags.iter().enumerate() {
+            if fr.len() != nfrags {
+                out.skip("invalid case: fragment counts differ");
+                return out;
+            }
+            for (i, f) in fr.iter().enumerate() {
+                let t = case.sides[j].res as usize;
+                let t0 = case.sides[0].res as usize;
+                if chars[t][f.0..f.1] != chars[t0][side_frags[0][i].0..side_frags[0][i].1] {
+                    out.skip("invalid case: sides do not select identical text");
+                    return out;
+                }
+            }
+        }
+        let src_res = case.src_res as usize;
+        let src_given: Vec<R> = case.src.iter().map(|r| (r.0 as usize, r.1 as usize)).collect();
+        if src_given.iter().any(|r| r.0 > r.1 || r.1 > chars[src_res].len())
+            || (src_given.len() > 1 && case.src_kind == SelKind::Text)
+            || src_given.iter().enumerate().any(|(i, r)| src_given[..i].contains(r))
+        {
+            out.skip("invalid case: source");
+            return out;
+        }
+        let src: Vec<R> = reported_order(case.src_kind, &src_given);
+        let src_side: Option<usize> = case.sides.iter().position(|s| s.res as usize == src_res);
+
+        // ---------------------------------------------------------------- oracle: coverage and expected targets
+        let mut classes: Vec<Class> = vec![];
+        let mut pieces: Vec<Piece> = vec![];
+        match src_side {
+            Some(s) => {
+                for r in &src {
+                    let (c, p) = walk(&side_frags[s], r.0, r.1);
+                    classes.push(c);
+                    pieces.extend(p);
+                }
+            }
+            None => classes.push(Class::Outside),
+        }
+        let mut classnames: Vec<&'static str> = {
+            let mut c = classes.clone();
+            c.sort();
+            c.dedup();
+            c.iter().map(|c| c.name()).collect()
+        };
+        if src_side.is_none() {
+            classnames = vec!["foreign-text"];
+        }
+        let srcclass = classnames.join("+");
+        let any_zero = classes.contains(&Class::Zero);
+        let wrong_side = case.cfg.side == 2 && src_side.is_some();
+        // Some(true) = must succeed, Some(false) = must fail, None = documentation silent
+        let expect: Option<bool> = if classes.iter().any(|c| c.uncovered()) {
+            Some(false)
+        } else if any_zero || classes.contains(&Class::SpanReordered) || wrong_side {
+            None
+        } else {
+            Some(true)
+        };
+        let dc_reason = if any_zero {
+            "zero-width"
+        } else if classes.contains(&Class::SpanReordered) {
+            "span-reordered"
+        } else {
+            "byindex-other-side"
+        };
+        let viatok = match case.via {
+            Via::Simple => "simple",
+            Via::Complex => "complex",
+        };
+        let multitok = if src.len() > 1 { "multi" } else { "single" };
+        let reordered = side_frags.iter().any(|fr| fr.windows(2).any(|w| w[0].0 > w[1].0));
+        let spanning = classes.iter().any(|c| matches!(c, Class::Span | Class::SpanReordered));
+
+        // ---------------------------------------------------------------- labels
+        out.label(&format!("via:{}", viatok));
+        out.label(&format!("sides={}", case.sides.len()));
+        out.label(&format!("texts={}", ntexts));
+        out.label(match nfrags {
+            1 => "frags=1",
+            2 => "frags=2",
+            _ => "frags>=3",
+        });
+        if reordered {
+            out.label("reordered");
+        }
+        for c in &classnames {
+            out.label(&format!("src:{}", c));
+        }
+        if spanning {
+            out.label("src:boundary-spanning");
+        }
+        out.label(&format!("src:{}", multitok));
+        out.label(&format!("srckind:{:?}", case.src_kind));
+        out.label(&format!("entry:{:?}", case.entry));
+        out.label(match expect {
+            Some(true) => "expect:ok",
+            Some(false) => "expect:err",
+            None => "expect:dontcare",
+        });
+        if case.cfg.ids {
+            out.label("cfg:ids");
+        }
+        if case.cfg.allow_simple {
+            out.label("cfg:allow_simple");
+        }
+        if case.cfg.no_transposition {
+            out.label("cfg:no_transposition");
+        }
+        if case.cfg.no_resegmentation {
+            out.label("cfg:no_resegmentation");
+        }
+        out.label(match case.cfg.side {
+            0 => "cfg:side-auto",
+            1 => "cfg:side-byindex",
+            _ => "cfg:side-byindex-wrong",
+        });
+        if case.sides.iter().any(|s| s.kind == SelKind::Multi) {
+            out.label("sidekind:multi");
+        }
+        if case.texts.iter().any(|t| !t.is_ascii()) {
+            out.label("multibyte");
+        }
+        out.nontrivial = spanning || nfrags >= 3;
+
+        // ---------------------------------------------------------------- build the store
+        let mut store = AnnotationStore::default();
+        for (i, t) in case.texts.iter().enumerate() {
+            if store
+                .add_resource(TextResourceBuilder::new().with_id(format!("r{}", i)).with_text(t.clone()))
+                .is_err()
+            {
+                out.skip("setup: add_resource failed");
+                return out;
+            }
+        }
+        if case.noise & 2 != 0 {
+            for (j, fr) in side_frags.iter().enumerate() {
+                let mut textual = fr.clone();
+                textual.sort();
+                for f in textual {
+                    let _ = store.annotate(
+                        AnnotationBuilder::new()
+                            .with_target(SelectorBuilder::textselector(format!("r{}", case.sides[j].res), Offset::simple(f.0, f.1)))
+                            .with_data("testdataset", "type", "fragment"),
+                    );
+                }
+            }
+            out.label("noise:prebound-fragments");
+        }
+        let via_target = match case.via {
+            Via::Simple => SelectorBuilder::directionalselector(case.sides.iter().map(|s| {
+                SelectorBuilder::textselector(
+                    format!("r{}", s.res),
+                    Offset::simple(s.frags[0].0 as usize, s.frags[0].1 as usize),
+                )
+            })),
+            Via::Complex => {
+                for (j, s) in case.sides.iter().enumerate() {
+                    let fr: Vec<R> = s.frags.iter().map(|f| (f.0 as usize, f.1 as usize)).collect();
+                    let r = store.annotate(
+                        AnnotationBuilder::new()
+                            .with_id(format!("S{}", j))
+                            .with_target(selector_for(s.res as usize, s.kind, &fr))
+                            .with_data("testdataset", "type", "phrase"),
+                    );
+                    if r.is_err() {
+                        out.skip("setup: side annotation rejected");
+                        return out;
+                    }
+                    if case.noise & 1 != 0 {
+                        let _ = store.annotate(
+                            AnnotationBuilder::new()
+                                .with_target(SelectorBuilder::resourceselector(format!("r{}", s.res)))
+                                .with_data("testdataset", "type", "noise"),
+                        );
+                    }
+                }
+                SelectorBuilder::directionalselector(
+                    (0..case.sides.len()).map(|j| SelectorBuilder::annotationselector(format!("S{}", j), None)),
+                )
+            }
+        };
+        if store
+            .annotate(
+                AnnotationBuilder::new()
+                    .with_id("VIA")
+                    .with_target(via_target)
+                    .with_data(VOCAB, "Transposition", DataValue::Null),
+            )
+            .is_err()
+        {
+            out.skip("setup: transposition rejected");
+            return out;
+        }
+        // the transposition must read back as built (sanity of the setup, not part of the property)
+        {
+            let via = store.annotation("VIA").expect("via");
+            let got: Vec<Vec<(usize, usize, usize)>> = match case.via {
+                Via::Simple => via
+                    .textselections()
+                    .map(|t| vec![(res_index(&t.resource()), t.begin(), t.end())])
+                    .collect(),
+                Via::Complex => via
+                    .annotations_in_targets(AnnotationDepth::One)
+                    .map(|a| {
+                        a.textselections()
+                            .map(|t| (res_index(&t.resource()), t.begin(), t.end()))
+                            .collect()
+                    })
+                    .collect(),
+            };
+            let want: Vec<Vec<(usize, usize, usize)>> = side_frags
+                .iter()
+                .enumerate()
+                .map(|(j, fr)| fr.iter().map(|f| (case.sides[j].res as usize, f.0, f.1)).collect())
+                .collect();
+            if got != want {
+                out.skip("setup: transposition does not read back as built");
+                return out;
+            }
+        }
+        let needs_annotation = !matches!(case.entry, Entry::TsetNew | Entry::TsetNamed);
+        let mut src_handle: Option<AnnotationHandle> = None;
+        if needs_annotation {
+            let mut b = AnnotationBuilder::new().with_target(selector_for(src_res, case.src_kind, &src_given));
+            if case.entry != Entry::AnnotationNoId {
+                b = b.with_id("SRC");
+            }
+            if case.with_data {
+                b = b.with_data("mydataset", "species", "homo sapiens");
+            }
+            match store.annotate(b) {
+                Ok(h) => src_handle = Some(h),
+                Err(_) => {
+                    out.skip("setup: source annotation rejected");
+                    return out;
+                }
+            }
+            let a = store.annotation(src_handle.unwrap()).expect("source");
+            let got: Vec<(usize, usize, usize)> = a
+                .textselections()
+                .map(|t| (res_index(&t.resource()), t.begin(), t.end()))
+                .collect();
+            let want: Vec<(usize, usize, usize)> = src.iter().map(|r| (src_res, r.0, r.1)).collect();
+            if got != want {
+                out.skip("setup: source annotation does not read back as built");
+                return out;
+            }
+        }
+        let src_offsets: Vec<(usize, usize, usize)> = src.iter().map(|r| (src_res, r.0, r.1)).collect();
+        let src_texts: Vec<String> = src.iter().map(|r| slice(&chars[src_res], r.0, r.1)).collect();
+        let src_joined: String = src_texts.concat();
+
+        // ---------------------------------------------------------------- the call
+        let mut config = TransposeConfig::default();
+        config.allow_simple = case.cfg.allow_simple;
+        config.no_transposition = case.cfg.no_transposition;
+        config.no_resegmentation = case.cfg.no_resegmentation;
+        let ntargets = case.sides.len() - if src_side.is_some() { 1 } else { 0 };
+        if case.cfg.ids {
+            config.transposition_id = Some("NT".to_string());
+            config.resegmentation_id = Some("RS".to_string());
+            config.target_side_ids = (0..ntargets).map(|k| format!("T{}", k)).collect();
+        }
+        match (case.cfg.side, src_side) {
+            (1, Some(s)) => config.source_side = TranspositionSide::ByIndex(s),
+            (2, Some(s)) => config.source_side = TranspositionSide::ByIndex((s + 1) % case.sides.len()),
+            _ => {}
+        }
+        match case.entry {
+            Entry::TsetExisting => {
+                config.source_side_id = Some("SRC".to_string());
+                config.existing_source_side = true;
+            }
+            Entry::TsetNamed => {
+                config.source_side_id = Some("SRCNEW".to_string());
+            }
+            _ => {}
+        }
+        let before = observe(&store);
+        let called = {
+            let via = store.annotation("VIA").expect("via");
+            match case.entry {
+                Entry::AnnotationId | Entry::AnnotationNoId => {
+                    let a = store.annotation(src_handle.unwrap()).expect("source");
+                    catch(|| a.transpose(&via, config).map_err(|e| e.to_string()))
+                }
+                Entry::TsetExisting => {
+                    let a = store.annotation(src_handle.unwrap()).expect("source");
+                    match a.textselectionset() {
+                        Some(tset) => catch(|| tset.transpose(&via, config).map_err(|e| e.to_string())),
+                        None => {
+                            out.skip("setup: source annotation has no text selection set");
+                            return out;
+                        }
+                    }
+                }
+                Entry::TsetNew | Entry::TsetNamed => {
+                    let res = store.resource(format!("r{}", src_res)).expect("resource");
+                    let mut sels = vec![];
+                    for r in &src {
+                        match res.textselection(&Offset::simple(r.0, r.1)) {
+                            Ok(t) => sels.push(t),
+                            Err(_) => {
+                                out.skip("setup: source selection rejected");
+                                return out;
+                            }
+                        }
+                    }
+                    let tset: ResultTextSelectionSet = sels.into_iter().collect();
+                    catch(|| tset.transpose(&via, config).map_err(|e| e.to_string()))
+                }
+            }
+        };
+        let sigbase = format!("{}|{}|{}", viatok, srcclass, multitok);
+        let result = match called {
+            Ok(r) => r,
+            Err(p) => {
+                out.label("result:panic");
+                out.fail(
+                    "panic",
+                    format!("{}|{}", p.signature(), viatok),
+                    format!("transpose panicked at {}:{}: {} (source {:?} class {})", p.file, p.line, p.msg, src, srcclass),
+                );
+                return out;
+            }
+        };
+        out.checks += 1;
+        let builders = match result {
+            Err(msg) => {
+                out.label("result:err");
+                match expect {
+                    Some(true) => out.fail(
+                        "covered",
+                        format!("covered-err|{}", sigbase),
+                        format!(
+                            "source {:?} in r{} is covered by side {:?} of the transposition (fragments {:?}) but transpose failed: {}",
+                            src, src_res, src_side, src_side.map(|s| side_frags[s].clone()), msg
+                        ),
+                    ),
+                    Some(false) => {}
+                    None => {
+                        out.dontcare += 1;
+                        out.label(&format!("dontcare:{}:err", dc_reason));
+                    }
+                }
+                out.checks += 1;
+                if observe(&store) != before {
+                    out.fail("uncovered.unchanged", format!("changed|{}", sigbase), "the store differs observably after a failed transpose");
+                }
+                return out;
+            }
+            Ok(b) => b,
+        };
+        out.label("result:ok");
+        match expect {
+            Some(false) => {
+                out.fail(
+                    "uncovered",
+                    format!("uncovered-ok|{}", sigbase),
+                    format!(
+                        "source {:?} in r{} is not covered by the transposition (source side {:?}, fragments {:?}; class {}) but transpose returned Ok with {} annotations",
+                        src, src_res, src_side, src_side.map(|s| side_frags[s].clone()), srcclass, builders.len()
+                    ),
+                );
+                return out;
+            }
+            None => {
+                out.dontcare += 1;
+                out.label(&format!("dontcare:{}:ok", dc_reason));
+            }
+            Some(true) => {}
+        }
+        let Some(src_side) = src_side else {
+            return out;
+        };
+
+        // ---------------------------------------------------------------- adding the result
+        let nbuilders = builders.len();
+        let handles = match catch(|| store.annotate_from_iter(builders.into_iter()).map_err(|e| e.to_string())) {
+            Ok(Ok(h)) => h,
+            Ok(Err(msg)) => {
+                out.fail(
+                    "annotate_ok",
+                    format!("annotate-err|{}|{:?}", sigbase, case.entry),
+                    format!("annotate_from_iter on the {} returned annotations failed: {}", nbuilders, msg),
+                );
+                return out;
+            }
+            Err(p) => {
+                out.fail("panic", format!("{}|annotate", p.signature()), format!("annotate_from_iter panicked: {}", p.msg));
+                return out;
+            }
+        };
+        out.checks += 1;
+        let added: Vec<Added> = handles.iter().filter_map(|h| describe(&store, *h)).collect();
+        let nts: Vec<&Added> = added.iter().filter(|a| a.is_transposition).collect();
+        let plain: Vec<&Added> = added.iter().filter(|a| !a.is_transposition && !a.is_resegmentation).collect();
+        let cfgtok = format!(
+            "{}{}{}",
+            if case.cfg.allow_simple { "S" } else { "-" },
+            if case.cfg.no_transposition { "N" } else { "-" },
+            if case.cfg.ids { "I" } else { "-" }
+        );
+
+        // the new transposition
+        let nt: Option<&Added> = if case.cfg.no_transposition {
+            out.checks += 1;
+            if !nts.is_empty() {
+                out.fail(
+                    "config",
+                    format!("transposition-despite-no_transposition|{}", viatok),
+                    "no_transposition was set but a transposition annotation was returned",
+                );
+            }
+            None
+        } else {
+            out.checks += 1;
+            if nts.len() != 1 {
+                out.fail(
+                    "new_transposition",
+                    format!("count|{}|{}", sigbase, cfgtok),
+                    format!("expected exactly one returned annotation carrying the Transposition key, got {} (of {} returned)", nts.len(), added.len()),
+                );
+                return out;
+            }
+            Some(nts[0])
+        };
+        let simple_output = nt.map(|n| n.in_targets.is_empty()).unwrap_or(false);
+        if simple_output {
+            out.label("output:simple");
+            out.checks += 1;
+            if !case.cfg.allow_simple {
+                out.fail("config", format!("simple-output-not-allowed|{}", viatok), "a simple transposition was returned although allow_simple is false");
+            }
+        } else if nt.is_some() {
+            out.label("output:complex");
+        }
+        if let (Some(n), true) = (nt, case.cfg.ids) {
+            out.checks += 1;
+            if n.id.as_deref() != Some("NT") {
+                out.fail("ids", format!("transposition_id|{}", viatok), format!("new transposition has id {:?}, requested NT", n.id));
+            }
+        }
+
+        // sides of the new transposition: (text index, pieces, texts, annotation handle)
+        struct SideObs {
+            tsels: Vec<(usize, usize, usize)>,
+            texts: Vec<String>,
+            handle: Option<AnnotationHandle>,
+        }
+        let nt_sides: Vec<SideObs> = match nt {
+            None => vec![],
+            Some(n) if simple_output => n
+                .tsels
+                .iter()
+                .zip(n.texts.iter())
+                .map(|(t, s)| SideObs { tsels: vec![*t], texts: vec![s.clone()], handle: None })
+                .collect(),
+            Some(n) => n
+                .in_targets
+                .iter()
+                .map(|h| {
+                    let d = describe(&store, *h);
+                    SideObs {
+                        tsels: d.as_ref().map(|d| d.tsels.clone()).unwrap_or_default(),
+                        texts: d.as_ref().map(|d| d.texts.clone()).unwrap_or_default(),
+                        handle: Some(*h),
+                    }
+                })
+                .collect(),
+        };
+
+        // ---------------------------------------------------------------- the transposed annotation per target side
+        let mut transposed: Vec<(usize, Vec<(usize, usize, usize)>, Option<AnnotationHandle>)> = vec![]; // (text, pieces, annotation)
+        let mut k = 0;
+        for (j, side) in case.sides.iter().enumerate() {
+            if j == src_side {
+                continue;
+            }
+            let t = side.res as usize;
+            let (tsels, texts, joined, handle): (Vec<(usize, usize, usize)>, Vec<String>, String, Option<AnnotationHandle>) = if simple_output {
+                let found: Vec<&SideObs> = nt_sides.iter().filter(|s| s.tsels.iter().all(|x| x.0 == t)).collect();
+                out.checks += 1;
+                if found.len() != 1 {
+                    out.fail(
+                        "side",
+                        format!("target-count|{}|{}", sigbase, cfgtok),
+                        format!("expected one selection of the returned simple transposition in r{}, got {}", t, found.len()),
+                    );
+                    k += 1;
+                    continue;
+                }
+                (found[0].tsels.clone(), found[0].texts.clone(), found[0].texts.concat(), None)
+            } else {
+                let found: Vec<&&Added> = plain
+                    .iter()
+                    .filter(|a| !a.tsels.is_empty() && a.tsels.iter().all(|x| x.0 == t))
+                    .collect();
+                out.checks += 1;
+                if found.len() != 1 {
+                    out.fail(
+                        "side",
+                        format!("target-count|{}|{}", sigbase, cfgtok),
+                        format!(
+                            "expected exactly one returned annotation lying in r{} (side {} of the transposition), got {}; returned: {:?}",
+                            t,
+                            j,
+                            found.len(),
+                            added.iter().map(|a| (a.id.clone(), a.tsels.clone())).collect::<Vec<_>>()
+                        ),
+                    );
+                    k += 1;
+                    continue;
+                }
+                let a = found[0];
+                if case.cfg.ids {
+                    out.checks += 1;
+                    let want = format!("T{}", k);
+                    if a.id.as_deref() != Some(want.as_str()) {
+                        out.fail(
+                            "ids",
+                            format!("target_side_ids|{}", viatok),
+                            format!("transposed annotation for side {} has id {:?}, requested {}", j, a.id, want),
+                        );
+                    }
+                }
+                (a.tsels.clone(), a.texts.clone(), a.joined.clone(), Some(a.handle))
+            };
+            k += 1;
+            // text: piece by piece in order when the segmentation is kept, joined otherwise
+            out.checks += 2;
+            if joined != src_joined {
+                out.fail(
+                    "text",
+                    format!("joined|{}|{}", sigbase, if reordered { "reordered" } else { "inorder" }),
+                    format!(
+                        "source {:?} in r{} selects {:?} but the transposed annotation in r{} selects {:?} (pieces {:?} at {:?})",
+                        src, src_res, src_joined, t, joined, texts, tsels
+                    ),
+                );
+            } else if texts.len() == src_texts.len() && texts != src_texts {
+                out.fail(
+                    "text",
+                    format!("pieces|{}|{}", sigbase, if reordered { "reordered" } else { "inorder" }),
+                    format!("source pieces {:?} but transposed pieces {:?} in r{}", src_texts, texts, t),
+                );
+            }
+            // what stam reports as text is what the offsets select
+            for (x, s) in tsels.iter().zip(texts.iter()) {
+                out.checks += 1;
+                if x.0 < ntexts && x.2 <= chars[x.0].len() && x.1 <= x.2 && slice(&chars[x.0], x.1, x.2) != *s {
+                    out.fail("text", format!("offsets-vs-text|{}", viatok), format!("selection {:?} reports text {:?}", x, s));
+                }
+            }
+            // expected target ranges
+            if any_zero {
+                out.dontcare += 1;
+            } else {
+                let want: Vec<(usize, usize, usize)> = pieces
+                    .iter()
+                    .map(|p| (t, side_frags[j][p.frag].0 + p.rb, side_frags[j][p.frag].0 + p.re))
+                    .collect();
+                out.checks += 1;
+                if coalesce(&want) != coalesce(&tsels) {
+                    out.fail(
+                        "target.offsets",
+                        format!("offsets|{}|{}", sigbase, if reordered { "reordered" } else { "inorder" }),
+                        format!(
+                            "source {:?} in r{} over fragments {:?} -> {:?}: expected target {:?} in r{}, got {:?}",
+                            src, src_res, side_frags[src_side], side_frags[j], want, t, tsels
+                        ),
+                    );
+                }
+            }
+            transposed.push((t, tsels, handle));
+        }
+
+        // ---------------------------------------------------------------- the new transposition links sides with identical text
+        if let Some(n) = nt {
+            out.checks += 1;
+            if nt_sides.len() != case.sides.len() {
+                out.fail(
+                    "new_transposition",
+                    format!("sides-count|{}|{}", sigbase, cfgtok),
+                    format!("new transposition {:?} has {} sides, the transposition used has {}", n.id, nt_sides.len(), case.sides.len()),
+                );
+            }
+            if let Some(first) = nt_sides.first() {
+                for s in nt_sides.iter().skip(1) {
+                    out.checks += 1;
+                    if s.texts.concat() != first.texts.concat() {
+                        out.fail(
+                            "new_transposition",
+                            format!("text-joined|{}|{}", sigbase, cfgtok),
+                            format!("sides of the new transposition select different text: {:?} vs {:?}", first.texts, s.texts),
+                        );
+                    } else if s.texts != first.texts {
+                        out.fail(
+                            "new_transposition",
+                            format!("text-pieces|{}|{}", sigbase, cfgtok),
+                            format!("sides of the new transposition are segmented differently: {:?} vs {:?}", first.texts, s.texts),
+                        );
+                    }
+                }
+            }
+            // one side is the source ...
+            out.checks += 1;
+            let src_sides: Vec<&SideObs> = nt_sides.iter().filter(|s| !s.tsels.is_empty() && s.tsels.iter().all(|x| x.0 == src_res)).collect();
+            if src_sides.len() != 1 {
+                out.fail(
+                    "new_transposition",
+                    format!("source-side-count|{}|{}", sigbase, cfgtok),
+                    format!("expected one side of the new transposition in the source text r{}, got {}", src_res, src_sides.len()),
+                );
+            } else if any_zero {
+                out.dontcare += 1;
+            } else if coalesce(&src_sides[0].tsels) != coalesce(&src_offsets) {
+                out.fail(
+                    "new_transposition",
+                    format!("source-side-offsets|{}|{}", sigbase, cfgtok),
+                    format!("source {:?} but the source side of the new transposition selects {:?}", src_offsets, src_sides[0].tsels),
+                );
+            }
+            // ... and the others are the transposed annotations
+            if !simple_output {
+                for (t, _, h) in &transposed {
+                    out.checks += 1;
+                    if !nt_sides.iter().any(|s| s.handle.is_some() && s.handle == *h) {
+                        out.fail(
+                            "new_transposition",
+                            format!("not-linked|{}|{}", sigbase, cfgtok),
+                            format!("the transposed annotation in r{} is not a side of the new transposition", t),
+                        );
+                    }
+                }
+            }
+        }
+
+        // ---------------------------------------------------------------- transposing back
+        if let Some(n) = nt {
+            if !out.failures.is_empty() {
+                return out; // the round trip is only meaningful on a correct forward result
+            }
+            let nt_handle = n.handle;
+            for (t, tsels, h) in &transposed {
+                if any_zero {
+                    out.dontcare += 1;
+                    continue;
+                }
+                let back = {
+                    let via2 = store.annotation(nt_handle).expect("new transposition");
+                    match h {
+                        Some(h) => {
+                            let a = store.annotation(*h).expect("transposed annotation");
+                            catch(|| a.transpose(&via2, TransposeConfig::default()).map_err(|e| e.to_string()))
+                        }
+                        None => {
+                            let res = store.resource(format!("r{}", t)).expect("resource");
+                            let sels: Vec<ResultTextSelection> = tsels
+                                .iter()
+                                .filter_map(|x| res.textselection(&Offset::simple(x.1, x.2)).ok())
+                                .collect();
+                            if sels.is_empty() {
+                                continue;
+                            }
+                            let tset: ResultTextSelectionSet = sels.into_iter().collect();
+                            catch(|| tset.transpose(&via2, TransposeConfig::default()).map_err(|e| e.to_string()))
+                        }
+                    }
+                };
+                out.checks += 1;
+                let rsig = format!("{}|{}", sigbase, if simple_output { "simple-output" } else { "complex-output" });
+                let builders = match back {
+                    Err(p) => {
+                        out.fail("panic", format!("{}|roundtrip", p.signature()), format!("transposing back panicked at {}:{}: {}", p.file, p.line, p.msg));
+                        continue;
+                    }
+                    Ok(Err(msg)) => {
+                        out.fail(
+                            "roundtrip",
+                            format!("back-err|{}", rsig),
+                            format!("transposing {:?} back over the new transposition failed: {}", tsels, msg),
+                        );
+                        continue;
+                    }
+                    Ok(Ok(b)) => b,
+                };
+                let handles2 = match catch(|| store.annotate_from_iter(builders.into_iter()).map_err(|e| e.to_string())) {
+                    Ok(Ok(h)) => h,
+                    Ok(Err(msg)) => {
+                        out.fail("roundtrip", format!("annotate-err|{}", rsig), format!("adding the result of transposing back failed: {}", msg));
+                        continue;
+                    }
+                    Err(p) => {
+                        out.fail("panic", format!("{}|roundtrip-annotate", p.signature()), format!("annotate_from_iter panicked: {}", p.msg));
+                        continue;
+                    }
+                };
+                let added2: Vec<Added> = handles2.iter().filter_map(|h| describe(&store, *h)).collect();
+                let backs: Vec<&Added> = added2
+                    .iter()
+                    .filter(|a| !a.is_transposition && !a.is_resegmentation && !a.tsels.is_empty() && a.tsels.iter().all(|x| x.0 == src_res))
+                    .collect();
+                out.checks += 1;
+                if backs.len() != 1 {
+                    out.fail(
+                        "roundtrip",
+                        format!("back-count|{}", rsig),
+                        format!("expected one annotation in r{} from transposing back, got {}", src_res, backs.len()),
+                    );
+                } else if coalesce(&backs[0].tsels) != coalesce(&src_offsets) {
+                    out.fail(
+                        "roundtrip",
+                        format!("back-offsets|{}", rsig),
+                        format!(
+                            "source {:?} -> transposed {:?} in r{} -> back {:?} (original offsets expected)",
+                            src_offsets, tsels, t, backs[0].tsels
+                        ),
+                    );
+                }
+            }
+        }
+        out
     }
 }
